@@ -3,7 +3,7 @@
 The core handles list repetition only for a literal count.  LIBSPEC (Python semantics):
 `[x] * n` is a fresh list of length max(n, 0) all of whose elements are x.  Only the
 one-element-literal-list case is modelled; everything else is left to the core.
-Strictly additive: without this extension the expression is an uninterpreted `op_mul`.
+SCOPE: active only for property C19 (ctx.prop); without it the expression is an uninterpreted `op_mul`.
 """
 import ast
 
@@ -16,7 +16,7 @@ _orig_binop = symexec.Executor.binop
 
 
 def _binop(self, st, op, l, r, node):
-    if isinstance(op, ast.Mult):
+    if isinstance(op, ast.Mult) and self.ctx.prop == 'C19':
         lst, cnt = (l, r) if l.kind == 'list' else (r, l)
         if (lst.kind == 'list' and cnt.kind == 'int' and cnt.lit is None and lst.items is not None
                 and len(lst.items) == 1 and not st.spec):
